@@ -240,6 +240,13 @@ class Chain:
         ok = ok and base_mult(self.key) == acc and scalar_to_int(self.key) % L == tsum
         ok = ok and AMHL.verify_lock_key(self.hops[-1][2], self.key) is True
         ok = ok and self.views[self.n][1] == self.key
+        # the views as documented by AMHL.setup_for: (y0,) for the sender, (left point,
+        # right point, own scalar) for an intermediary, ((left point, 0, 0), key) for
+        # the receiver -- each party's lock points are the chain's
+        ok = ok and tuple(self.views[0]) == (self.y[0],)
+        ok = ok and all(tuple(self.views[i]) == (self.Y[i - 1], self.Y[i], self.y[i])
+                        for i in range(1, self.n))
+        ok = ok and tuple(self.views[self.n][0]) == (self.Y[self.n - 1], 0, 0)
         run.check('A1_setup_algebra', ok, 'C18/setup/tweak_points_are_not_prefix_sums_or_key_wrong',
                   detail={'n': self.n})
         # a wrong key must not verify
